@@ -160,6 +160,20 @@ def diagnose(res: CheckResult, name: str, mism: List[dict], cur: Dict[str, bool]
         else:
             at = vd.get("at", 0)
             prev = it["log"][at - 2] if isinstance(at, int) and 2 <= at <= len(it["log"]) + 1 else None
+            # the callable whose call is in progress in the diverging task (the last unanswered "call" event)
+            task = (vd.get("act") or vd.get("exp") or [None, 0])[1]
+            depth, callee = 0, 0
+            for ev in reversed(it["log"][:max(0, (at or 1) - 1)]):
+                if ev[1] != task:
+                    continue
+                if ev[0] == "ret":
+                    depth += 1
+                elif ev[0] == "call":
+                    if depth == 0:
+                        callee = ev[2]
+                        break
+                    depth -= 1
+            vd = dict(vd, callee_async=bool(callee and 1 <= callee <= len(it["prog"]["fn"]) and it["prog"]["fn"][callee - 1]["async"]))
             clause, props = attribute(vd, it["prog"], prev)
         what = "family {}: expected {} but the implementation did {} (event {} of program {}{})".format(
             name, vd.get("exp"), vd.get("act"), vd.get("at"), it["pid"],
